@@ -342,6 +342,12 @@ def real_extras(op):
                      fl(act.max) if act is not None else "n", fl(op.ifm2_scalar), rs])
 
 
+def limits(art):
+    """(request, expected answer) for `get_mem_limits_for_regions`: the dictionary handed to the register generator"""
+    want = ",".join(f"{int(r)}:{int(sz)}" for r, sz in sorted(art.mem_limits.items()))
+    return "hl2npu_limits arch=" + arch_tok(art.arch), want
+
+
 def lines(art, recs):
     """[(request line | None, skip reason | None, op index)] for one captured stream; `recs` = the C06 recorder dicts"""
     import c06_ops
@@ -459,6 +465,17 @@ def judge(ck, outs, tag="hl2npu"):
     if n_skip > max(5, len(lines) // 20):
         raise common.InfraError(f"{tag}: {n_skip} of {n_skip + len(lines)} commands could not be described (see notes)")
     answers = [parse(a) for a in ck.model(lines)] if lines else []
+    # get_mem_limits_for_regions
+    lim = [(o, si, e["hl_limits"]) for o in outs for si, e in enumerate(o.get("extra") or []) if e.get("hl_limits")]
+    lim_ans = ck.model([x[2][0] for x in lim]) if lim else []
+    lim_bad = [(o, si, req, want, got) for (o, si, (req, want)), got in zip(lim, lim_ans) if want != got]
+    ck.count(tag + "_mem_limits", len(lim))
+    if lim_bad:
+        o, si, req, want, got = lim_bad[0]
+        ck.violation(f"correspondence Model/NpuOpBuild.memLimits vs get_mem_limits_for_regions broken on {len(lim_bad)} streams: real {want} model {got} "
+                     f"(network {o['idx']} {o['profile']} {o.get('opts')})",
+                     {"correspondence": "hl2npu mem limits", "request": req, "real": want, "model": got, "profile": o["profile"], "seed": o["seed"],
+                      "index": o["idx"], "opts": o.get("opts")}, found_input=False)
     spec_bad, model_bad, unparsed = [], [], []
     judged = {"roles": 0, "weights": 0, "dma": 0, "clamp": 0, "fm": 0}
     for (o, si, i), line, d in zip(own, lines, answers):
